@@ -475,4 +475,82 @@ theorem okCnfAll_of_nonEmpty (full : Bool) : ∀ cs, nonEmptyAll cs = true → o
     simp [okCnfAll, okCnf_of_nonEmpty full c h.1, okCnfAll_of_nonEmpty full cs h.2]
 end
 
+/-! ## the DNF is always *implied* by the tree (no guard): whatever the tree matches, some clause matches.
+This is the direction candidate pruning (C08) relies on; it also holds for the operand-less any-of. -/
+theorem evalConj_true_of_forall (v : Val) (c : Clause) (h : ∀ m ∈ c, eval v m = true) : evalConj v c = true := by
+  simp only [evalConj, List.all_eq_true]; exact h
+
+mutual
+theorem dnf_complete (v : Val) (full : Bool) : ∀ r, eval v r = true → evalDnf v (dnf full r) = true
+  | .leaf i, h => by simpa [dnf, evalDnf, evalConj] using h
+  | .neg r, h => by simpa [dnf, evalDnf, evalConj] using h
+  | .justOne n cs, h => by simpa [dnf, evalDnf, evalConj] using h
+  | .atMostOne n cs, h => by simpa [dnf, evalDnf, evalConj] using h
+  | .atom cs, h => by
+    cases full with
+    | false => simpa [dnf, evalDnf, evalConj] using h
+    | true =>
+      simp only [eval] at h
+      simp only [dnf, if_true]
+      cases cs with
+      | nil => simp [evalDnf, evalConj]
+      | cons c cs' =>
+        simp only [List.isEmpty_cons, Bool.false_eq_true, if_false]
+        rw [evalDnf_cross, List.all_cons, evalDnf_single]
+        exact andSplit_complete v true (c :: cs') h
+  | .and true cs, h => by
+    cases cs with
+    | nil => simp [eval, evalAll] at h
+    | cons c cs' =>
+      rw [dnf_sound v full _ (by simp [okDnf])]; exact h
+  | .and false cs, h => by
+    simp only [eval, Bool.bne_false] at h
+    simp only [dnf]
+    cases cs with
+    | nil => simp [evalDnf, evalConj]
+    | cons c cs' =>
+      simp only [List.isEmpty_cons, Bool.false_eq_true, if_false]
+      rw [evalDnf_cross, List.all_cons, evalDnf_single]
+      exact andSplit_complete v full (c :: cs') h
+  | .or true cs, h => by
+    rw [dnf_sound v full _ (by simp [okDnf])]; exact h
+  | .or false cs, h => by
+    simp only [eval, Bool.bne_false] at h
+    simp only [dnf]
+    cases cs with
+    | nil => simp [evalAny] at h
+    | cons c cs' =>
+      simp only [List.isEmpty_cons, Bool.false_eq_true, if_false]
+      exact dnfCat_complete v full (c :: cs') h
+theorem andSplit_complete (v : Val) (full : Bool) : ∀ cs, evalAll v cs = true →
+    (evalConj v (andSplit full cs).1 && (andSplit full cs).2.all (evalDnf v)) = true
+  | [], _ => by simp [andSplit, evalConj]
+  | x :: xs, h => by
+    simp only [evalAll, Bool.and_eq_true] at h
+    have ih := andSplit_complete v full xs h.2
+    have hx := dnf_complete v full x h.1
+    simp only [Bool.and_eq_true] at ih
+    simp only [andSplit]
+    by_cases hd : hasDnf x = true
+    · simp only [hd, if_true]
+      split
+      · rename_i s heq
+        rw [heq, evalDnf_single] at hx
+        simp only [evalConj_append, hx, ih.1, ih.2, Bool.and_self]
+      · simp only [List.all_cons, hx, ih.1, ih.2, Bool.and_self]
+    · simp only [hd, Bool.false_eq_true, if_false, evalConj_cons, h.1, ih.1, ih.2, Bool.and_self]
+theorem dnfCat_complete (v : Val) (full : Bool) : ∀ cs, evalAny v cs = true → evalDnf v (dnfCat full cs) = true
+  | [], h => by simp [evalAny] at h
+  | x :: xs, h => by
+    simp only [evalAny, Bool.or_eq_true] at h
+    simp only [dnfCat, evalDnf_append, Bool.or_eq_true]
+    rcases h with h | h
+    · left
+      have hx := dnf_complete v full x h
+      by_cases hd : hasDnf x = true
+      · simp only [hd, if_true, hx]
+      · simp only [hd, Bool.false_eq_true, if_false, evalDnf_single, evalConj_single, h]
+    · right; exact dnfCat_complete v full xs h
+end
+
 end Pkgcore.C06
